@@ -392,7 +392,7 @@ def check_resolver(col: Collector, repo: Repo):
     col.add("C12.R6", "cpp_functions.cpp_function", "field-order", fields == ["cpp_name", "include_files", "cpp_return_type"],
             f"record fields are {fields}", fm.rel)
     # lookup is by membership with the unknown branch returning the node untouched (left to the loud gate)
-    has_membership = any(isinstance(n, ast.Compare) and isinstance(n.ops[0], ast.NotIn) and "functions_to_replace" in src(n)
+    has_membership = any(isinstance(n, ast.Compare) and isinstance(n.ops[0], (ast.NotIn, ast.In)) and "functions_to_replace" in src(n)
                          for n in ast.walk(v.node))
     uses_get = any(isinstance(n, ast.Call) and call_name(n) == "get" and "functions_to_replace" in src(n.func)
                    for n in ast.walk(v.node))
